@@ -55,6 +55,16 @@ GENERATED = [
 ]
 
 
+# run_corpus triples whose targets keep a weekday and/or a part of day (value fields that are 0 / falsy included)
+EXTRA_TRIPLES = [
+    ("Time[]{X-X-X X:X (0/morning)}", "2018-03-07T12:43", ["Montag früh", "monday morning"]),
+    ("Time[]{X-X-X X:X (6/night)}", "2018-03-07T12:43", ["sunday night"]),
+    ("Time[]{X-X-X 00:00 (X/X)}", "2018-03-07T12:43", ["midnight", "0:00"]),
+    ("Duration[]{1 nights}", "2018-03-07T12:43", ["eine nacht", "1 night"]),
+    ("Interval[]{X-X-X 09:00 (X/X) - X-X-X 17:00 (X/X)}", "2018-03-07T12:43", ["9-5", "9:00 - 17:00"]),
+]
+
+
 def _small_scope(maxlen=3):
     docs = []
     for L in range(1, maxlen + 1):
@@ -87,6 +97,8 @@ def plan(tier, seed):
                     yield ("gen",) + g + (d, sk)
         for i in range(len(corp)):
             yield ("corpus", i, tier)
+        for i in range(len(EXTRA_TRIPLES)):
+            yield ("corpus", -1 - i, tier)
         for k in (2, 3):
             for idx in itertools.product(range(n), repeat=k):
                 if len({ld[i][1] for i in idx}) == 2:
@@ -156,7 +168,7 @@ def run_case(case):
             from ctparse.time import auto_corpus
 
             corp = corp + [tuple(c) for c in auto_corpus.corpus]
-        target, ts_s, tests = corp[case[1]]
+        target, ts_s, tests = corp[case[1]] if case[1] >= 0 else EXTRA_TRIPLES[-1 - case[1]]
         try:
             import ctparse.corpus as CC
 
